@@ -304,9 +304,21 @@ def clock_guard(ctx, o):
     ps = PassShape(ctx, FWD)
     f = ps.f
     pt = ps.prereq_term()
+    # clock reads: datetime.now() calls, and loads of a local whose only definition is such a call (`now = datetime.now()`)
+    occurrences = []
+    clock_locals = {}
     for n in walk_no_nested(f.node):
-        if not _is_clock(n):
-            continue
+        if _is_clock(n):
+            par0 = _parent_of(f.node, n)
+            if isinstance(par0, ast.Assign) and len(par0.targets) == 1 and isinstance(par0.targets[0], ast.Name) and par0.value is n \
+                    and len(ps.fl.defs_of(par0.targets[0].id)) == 1:
+                clock_locals[par0.targets[0].id] = par0
+            else:
+                occurrences.append(n)
+    for n in walk_no_nested(f.node):
+        if isinstance(n, ast.Name) and isinstance(n.ctx, ast.Load) and n.id in clock_locals:
+            occurrences.append(n)
+    for n in occurrences:
         par = _parent_of(f.node, n)
         if not (isinstance(par, ast.Call) and isinstance(par.func, ast.Name) and par.func.id == 'max' and n in par.args):
             o.refute(f, n, par if par is not None else n, "clock read outside a max(): the result depends on the clock even before the project start")
@@ -323,10 +335,11 @@ def clock_guard(ctx, o):
                 guarded = True
         fill_name = prog.func(FWD['fill']).name
         construct = par
-        if len(others) == 1 and match(f"{ps.task}.start", others[0]):
+        ox = [ps.ex.expand(a, ps.cfg.node_containing(par), stop={pt['name']} if pt else None) for a in others]
+        if len(ox) == 1 and match(f"{ps.task}.start", ox[0]):
             construct = 'max(task.start, clock) [start of the fill]'
-        elif len(others) == 1 and isinstance(others[0], ast.Call) and isinstance(others[0].func, ast.Attribute) and \
-                unmangle(others[0].func.attr) == fill_name:
+        elif len(ox) == 1 and isinstance(ox[0], ast.Call) and isinstance(ox[0].func, ast.Attribute) and \
+                unmangle(ox[0].func.attr) == fill_name:
             construct = 'max(fill(...), clock) [leaf end]'
         if guarded:
             o.site(f, par, f"max({', '.join(src(a)[:25] for a in par.args)}) contains a term >= project start")
